@@ -219,7 +219,7 @@ theorem opRelA_step {r : String} {rs : List String} {f : String → Nat} {V : (S
       simp only [this, if_true, List.map_cons]
       rw [valAt_slice_proj _ _ _ c _ pts hne (by
         intro n hn
-        cases hp : a.proj with
+        cases hp : a.ivl with
         | false => simp [hp] at hn
         | true => simp only [hp, if_true, Option.some.injEq] at hn; omega)]
       rw [hev, hfr]
@@ -463,8 +463,8 @@ theorem runA_eq_meaningA (S : EinsumAS) (env : String → Pts) (h : HypsA S env)
 def exConv : EinsumAS :=
   { loop := ["q", "s"], exts := [2, 2], outName := "O", outVars := ["q"],
     terms := [{ kind := .times, scal := 1, tensors := [
-      { name := "I", ranks := ["W"], idx := [⟨⟨[(2, "q"), (1, "s")], 0⟩, true⟩] },
-      { name := "F", ranks := ["S"], idx := [⟨⟨[(1, "s")], 0⟩, false⟩] }] }] }
+      { name := "I", ranks := ["W"], idx := [{ e := ⟨[(2, "q"), (1, "s")], 0⟩, proj := true }] },
+      { name := "F", ranks := ["S"], idx := [{ e := ⟨[(1, "s")], 0⟩, proj := false }] }] }] }
 
 def exEnv : String → Pts := fun n => if n = "I" then [([0], 1), ([1], 2), ([2], 3), ([3], 4)] else if n = "F" then [([0], 10), ([1], 100)] else []
 
@@ -477,12 +477,12 @@ def exMixed : EinsumAS :=
   { loop := ["q", "s"], exts := [2, 1], outName := "O", outVars := ["q"],
     terms := [
       { kind := .times, scal := 1, tensors := [
-        { name := "M", ranks := ["Q"], idx := [⟨⟨[(1, "q")], 0⟩, false⟩] },
-        { name := "I", ranks := ["W"], idx := [⟨⟨[(1, "q"), (1, "s")], 0⟩, true⟩] },
-        { name := "F", ranks := ["S"], idx := [⟨⟨[(1, "s")], 0⟩, false⟩] }] },
+        { name := "M", ranks := ["Q"], idx := [{ e := ⟨[(1, "q")], 0⟩, proj := false }] },
+        { name := "I", ranks := ["W"], idx := [{ e := ⟨[(1, "q"), (1, "s")], 0⟩, proj := true }] },
+        { name := "F", ranks := ["S"], idx := [{ e := ⟨[(1, "s")], 0⟩, proj := false }] }] },
       { kind := .times, scal := 1, tensors := [
-        { name := "J", ranks := ["W"], idx := [⟨⟨[(1, "q"), (1, "s")], 0⟩, true⟩] },
-        { name := "K", ranks := ["S"], idx := [⟨⟨[(1, "s")], 0⟩, false⟩] }] }] }
+        { name := "J", ranks := ["W"], idx := [{ e := ⟨[(1, "q"), (1, "s")], 0⟩, proj := true }] },
+        { name := "K", ranks := ["S"], idx := [{ e := ⟨[(1, "s")], 0⟩, proj := false }] }] }] }
 
 def exMixedEnv : String → Pts := fun n =>
   if n = "M" then [([0], 1)] else if n = "I" ∨ n = "J" then [([0], 1), ([1], 1)] else if n = "F" ∨ n = "K" then [([0], 1)] else []
